@@ -120,7 +120,7 @@ def execute_run(sc) -> Result:
         account_run(res, run, sc)
         ll = sc["grid"]["lonlat"]
         res.history_key = "|".join(map(str, (ll["kind"], ll.get("dxs"), sc["grid"].get("subgrid"),
-                                             sc["grid"]["imax0"], sc["grid"]["jmax0"]))) + "|" + abstract_history(run)
+                                             sc["grid"]["imax0"], sc["grid"]["jmax0"]))) + "|" + abstract_history(run, sc)
         v, foreign = crash_violation(ID, run, ANCHORS + ("ladim/ROMS.py",))
         if v is not None:
             res.add(v)
